@@ -5,8 +5,8 @@ import corpus
 
 RULE = ("stereo-free corpus reactions (expected_reaction / reaction columns) and an isomer/anagram family (CCCO, CCOC, COCC, OCCC, "
         "CC(C)O, NCCO, OCCN, ...): every reaction is normalised (i) as written, (ii) in ALL permutations of its molecules when a side "
-        "has <= 4 molecules (random permutations otherwise), (iii) with every molecule re-written as a random equivalent SMILES and "
-        "with random atom maps; normal forms must coincide, be idempotent, and variants must have similarity exactly 1; "
+        "has <= 4 molecules (random permutations otherwise), (iii) with every molecule re-written as a random equivalent SMILES, with random atom maps and "
+        "with every hydrogen written as an atom; normal forms must coincide, be idempotent, and variants must have similarity exactly 1; "
         "wc_similarity is checked for symmetry and range on perturbed pairs x {pathway, ecfp, ecfp_inv}.  Correspondence: "
         "normalize_smiles vs Model/Normalize.normalize inside Coq with the leaf table recorded from the implementation (this pins "
         "count_atoms, the character sum, the tie-break and the sort direction); the leaf contract (idempotent, one molecule) is "
@@ -19,7 +19,7 @@ HDR = ("From Coq Require Import String ZArith List Bool.\nFrom SynRBL Require Im
        "Import ListNotations.\nOpen Scope string_scope.\n")
 DEFS = "Definition nz (tbl : list (string * string)) (s e : string) : bool := String.eqb (normalize (fun t => look tbl t t) s) e.\n"
 FAMILY = ["CCCO", "CCOC", "COCC", "OCCC", "CC(C)O", "NCCO", "OCCN", "CCN", "CNC", "NCC", "OCC", "CCO", "COC", "CC(=O)O", "OC(C)=O", "COC=O",
-          "c1ccccc1O", "Oc1ccccc1", "CC=O", "C=CO", "C1CO1", "ClCCBr", "BrCCCl", "CCl", "ClC", "[Na+].[Cl-]", "O", "[OH-]", "N#N", "OO"]
+          "c1ccccc1O", "Oc1ccccc1", "CC=O", "C=CO", "C1CO1", "ClCCBr", "BrCCCl", "CCl", "ClC", "[Na+].[Cl-]", "O", "[OH-]", "N#N", "OO", "[H]Cl", "Cl", "[H]O[H]", "[H][H]"]
 
 
 def stereo_free(s):
@@ -102,6 +102,17 @@ def run(ctx):
             a, b = rand_variant(rng, l, maps), rand_variant(rng, p, maps)
             if a is not None and b is not None:
                 variants.append(("mapped" if maps else "respelled", a + ">>" + b))
+        # every hydrogen written as an atom ("[H]Cl", "[H]O[H]"): the same molecules
+        try:
+            def expl(side):
+                out = []
+                for c in side.split("."):
+                    mm = Chem.MolFromSmiles(c)
+                    out.append(Chem.MolToSmiles(Chem.AddHs(mm)) if mm.GetNumAtoms() <= 8 and any(a.GetAtomicNum() > 1 for a in mm.GetAtoms()) else c)   # RDKit itself canonicalises [HH] and [H][H] differently (A3 fails for H2): not varied
+                return ".".join(out)
+            variants.append(("explicit-H", expl(l) + ">>" + expl(p)))
+        except Exception:
+            pass
         for kind, v in variants:
             ctx.evaluations += 1
             ctx.count("variants", kind)
